@@ -253,6 +253,36 @@ func VF_Repo_Purge() {
 	vf.Assert(y != nil, "C17 reset leaves another collection's clients alone")
 }
 
+// VF_Repo_LogRoundTrip (C14, C06; store part): three consecutive operations
+// with independent symbolic identifier fields (era, clock, sequence number,
+// client id - zero values included), stored through the real InsertOperations
+// and read back by ONE GetOperations call, come back as they were stored, each
+// with its own identifier: no field of one operation leaks into the next.
+func VF_Repo_LogRoundTrip() {
+	r := VFNewRealRepository()
+	ctx := vfCtx()
+	sseq := vf.U64("sseq")
+	vf.Assume(vf.All(sseq >= 1, sseq < 1<<62))
+	var want []*model.Operation
+	var docs []interface{}
+	for i := 0; i < 3; i++ {
+		tag := "op" + string(rune('0'+i))
+		op := &model.Operation{ID: &model.OperationID{Era: vf.U32(tag + ".era"), Lamport: vf.U64(tag + ".lamport"), CUID: vf.UID(tag + ".cuid"), Seq: vf.U64(tag + ".seq")},
+			OpType: model.TypeOfOperation_COUNTER_INCREASE, Body: []byte(`{"Delta":1}`)}
+		want = append(want, op)
+		docs = append(docs, schema.NewOperationDoc(op, "D1", sseq+uint64(i), 1))
+	}
+	vf.Assert(r.InsertOperations(ctx, docs) == nil, "C14 storing operations succeeds")
+	ops, sseqs, err := r.GetOperations(ctx, "D1", sseq, constants.InfinitySseq)
+	vf.Reach("read-back")
+	vf.Assert(err == nil && len(ops) == 3 && len(sseqs) == 3, "C06 the stored operations are read back, all of them")
+	for i, g := range ops {
+		w := want[i]
+		vf.Assert(vf.All(g.ID.Era == w.ID.Era, g.ID.Lamport == w.ID.Lamport, g.ID.Seq == w.ID.Seq, g.ID.CUID == w.ID.CUID, sseqs[i] == sseq+uint64(i)),
+			"C14 every operation of a pull carries its own identifier, as stored")
+	}
+}
+
 // VF_Repo_OperationRoundTrip (C14, store part): an operation with symbolic
 // identifier fields, any operation type and a body containing unusual
 // characters, stored through the real InsertOperations (OperationDoc, BSON
